@@ -4,6 +4,7 @@
   construct of the model mirrors it.  Built and audited separately from JRV.Properties.C20 (harness/README.md).
 -/
 import JRV.Model.JsonClass
+import JRV.Model.ConfigCopy
 import JRV.Generated
 
 namespace JRV.Props
@@ -36,5 +37,17 @@ theorem C20_gen_dumpDefaults : Generated.dumpDefaults = some JsonClass.dumpDefau
 
 /-- The attribute names read from the object are the variables holding the names in force, never a literal. -/
 theorem C20_gen_attributeNames : Generated.attributeNamesConsulted = some JsonClass.attributeNamesConsulted := by decide
+
+/-- The two conditions of the field filter are evaluated type test first: a value of neither a supported nor a
+    handled type is never compared with the ignore-list entries (`dumpFields`, `C20_unsupported_not_compared`). -/
+theorem C20_gen_fieldFilterOrder : Generated.fieldFilterOrder = some JsonClass.fieldFilterOrder := by decide
+
+/-- `Config.__init__` defines exactly the attributes of `ConfigCopy.Cfg`. -/
+theorem C20_gen_configInitFields : Generated.configInitFields = some ConfigCopy.initFields := by decide
+
+/-- `Config.copy` fills every one of them from the original: the six scalars through the constructor parameter that
+    is stored into the attribute of the same name, the two dictionaries by `.copy()` (`ConfigCopy.copy`,
+    `C20_copy_fields`, `C20_copy_table_complete`). -/
+theorem C20_gen_configCopyFields : Generated.configCopyFields = some ConfigCopy.copyFields := by decide
 
 end JRV.Props
